@@ -1,5 +1,6 @@
 import DryocVerif.Model.OnetimeAuth
 import DryocVerif.Proofs.Poly1305Main
+import DryocVerif.Proofs.CtEq
 /-
 `crypto_onetimeauth_verify` / `OnetimeAuth::verify` accept exactly the RFC 8439 authenticator.
 -/
@@ -7,95 +8,6 @@ namespace DryocVerif.Proofs.OnetimeAuth
 open DryocVerif
 open DryocVerif.Model.OnetimeAuth
 open DryocVerif.Model.Poly1305 (State new update finalize mac macChunks)
-
-/-! ### `subtle`'s constant-time comparison decides equality -/
-
-theorem ctEqU8_aux : ∀ n, n < 256 →
-    (((UInt8.ofNat n ||| (0 - UInt8.ofNat n)) >>> 7) ^^^ 1) = if UInt8.ofNat n = 0 then 1 else 0 := by
-  decide +kernel
-
-theorem ctEqU8_zero (x : UInt8) : (((x ||| (0 - x)) >>> 7) ^^^ 1) = if x = 0 then 1 else 0 := by
-  have h := ctEqU8_aux x.toNat x.toNat_lt
-  rw [UInt8.ofNat_toNat] at h
-  exact h
-
-theorem ctEqU8_eq (a b : UInt8) : ctEqU8 a b = if a = b then 1 else 0 := by
-  show ((((a ^^^ b) ||| (0 - (a ^^^ b))) >>> 7) ^^^ 1) = _
-  rw [ctEqU8_zero]
-  simp only [UInt8.xor_eq_zero_iff]
-
-theorem foldl_ct (l : List (UInt8 × UInt8)) : ∀ (x : UInt8), (x = 0 ∨ x = 1) →
-    l.foldl (fun x p => x &&& ctEqU8 p.1 p.2) x = if x = 1 ∧ ∀ p ∈ l, p.1 = p.2 then 1 else 0 := by
-  induction l with
-  | nil =>
-    intro x hx
-    rcases hx with h | h <;> subst h <;> simp
-  | cons p l ih =>
-    intro x hx
-    rw [List.foldl_cons, ctEqU8_eq]
-    by_cases hp : p.1 = p.2
-    · rw [if_pos hp]
-      have e : x &&& 1 = x := by rcases hx with h | h <;> subst h <;> decide
-      rw [e, ih x hx]
-      have key : (∀ q ∈ l, q.1 = q.2) ↔ (∀ q ∈ p :: l, q.1 = q.2) := by
-        constructor
-        · intro h q hq
-          rcases List.mem_cons.mp hq with hq | hq
-          · rw [hq]; exact hp
-          · exact h q hq
-        · intro h q hq
-          exact h q (List.mem_cons_of_mem _ hq)
-      exact if_congr (and_congr Iff.rfl key) rfl rfl
-    · rw [if_neg hp, UInt8.and_zero, ih 0 (Or.inl rfl)]
-      have h0 : ¬ ((0 : UInt8) = 1 ∧ ∀ q ∈ l, q.1 = q.2) := fun h => absurd h.1 (by decide)
-      have h1 : ¬ (x = 1 ∧ ∀ q ∈ p :: l, q.1 = q.2) := fun h => hp (h.2 p (List.mem_cons_self ..))
-      rw [if_neg h0, if_neg h1]
-
-theorem zip_all_eq : ∀ (a b : Bytes), a.length = b.length → (∀ p ∈ List.zip a b, p.1 = p.2) → a = b := by
-  intro a
-  induction a with
-  | nil => intro b hl _; cases b with
-    | nil => rfl
-    | cons _ _ => cases hl
-  | cons x a ih =>
-    intro b hl h
-    cases b with
-    | nil => cases hl
-    | cons y b =>
-      have h1 : x = y := h (x, y) (by simp)
-      have h2 : a = b := ih b (by simpa using hl) (fun p hp => h p (by simp [hp]))
-      rw [h1, h2]
-
-theorem zip_self_all_eq (a : Bytes) : ∀ p ∈ List.zip a a, p.1 = p.2 := by
-  induction a with
-  | nil => intro p hp; cases hp
-  | cons x a ih =>
-    intro p hp
-    simp only [List.zip_cons_cons, List.mem_cons] at hp
-    rcases hp with h | h
-    · rw [h]
-    · exact ih p h
-
-/-- **`ct_eq` returns 1 exactly on equal slices** (and 0 otherwise) -/
-theorem ctEq_eq (a b : Bytes) : ctEq a b = if a = b then 1 else 0 := by
-  unfold ctEq
-  by_cases hl : a.length = b.length
-  · rw [if_neg (by simpa using hl), foldl_ct _ 1 (Or.inr rfl)]
-    by_cases hab : a = b
-    · subst hab
-      rw [if_pos ⟨rfl, zip_self_all_eq a⟩, if_pos rfl]
-    · rw [if_neg hab, if_neg]
-      intro ⟨_, h⟩
-      exact hab (zip_all_eq a b hl h)
-  · rw [if_pos hl, if_neg]
-    intro h; exact hl (by rw [h])
-
-theorem ctEq_one_iff (a b : Bytes) : ctEq a b = 1 ↔ a = b := by
-  rw [ctEq_eq]
-  by_cases h : a = b
-  · simp [h]
-  · have : ¬ ((0 : UInt8) = 1) := by decide
-    simp [h, this]
 
 /-! ### the verify functions -/
 
